@@ -7,6 +7,7 @@ package main
 import (
 	"encoding/json"
 	"fmt"
+	"math"
 	"path/filepath"
 	"strconv"
 	"strings"
@@ -26,8 +27,22 @@ func nodeJSON(field string, it Item) map[string]interface{} {
 
 func coqNode(field string, it Item) string {
 	texts := fmt.Sprintf("[(\"t0\", %s); (\"t1\", %s); (\"t2\", %s)]", vh.CoqString(it.T[0]), vh.CoqString(it.T[1]), vh.CoqString(it.T[2]))
-	sorts := fmt.Sprintf("[(\"n0\", SInt %s); (\"n1\", SInt %s); (\"s0\", SStr %s)]", vh.CoqZ(it.N[0]), vh.CoqZ(it.N[1]), vh.CoqString(it.S))
+	sorts := fmt.Sprintf("[(\"n0\", SInt %s); (\"n1\", SInt %s); (\"s0\", SStr %s); (\"u0\", SUint %d%%Z); (\"f0\", SFloat %s)]",
+		vh.CoqZ(it.N[0]), vh.CoqZ(it.N[1]), vh.CoqString(it.S), it.U, vh.CoqZ(floatCode(it.F)))
 	return fmt.Sprintf("mk_node %s %s %s %s", vh.CoqString(it.Key), vh.CoqJSON(nodeJSON(field, it)), texts, sorts)
+}
+
+// floatCode maps the non-NaN float64s order-isomorphically into int64 (-0 and +0 identified): the
+// representation of a float sort value in the model.
+func floatCode(f float64) int64 {
+	if f == 0 {
+		return 0
+	}
+	b := math.Float64bits(f)
+	if b>>63 == 1 {
+		return -int64(b &^ (1 << 63))
+	}
+	return int64(b)
 }
 
 func coqOptZ(p *int64) string {
@@ -58,7 +73,7 @@ var coqImpl = map[string]string{"plain": "IPlain", "exp": "IExpensive", "batch":
 
 func coqCfg(c *Case) string {
 	if c.Field == "bareI" {
-		return "(mk_cfg [] [] " + vh.CoqBool(c.Flag) + ")"
+		return "(mk_cfg [] [] " + vh.CoqBool(c.Flag) + " [])"
 	}
 	var ffs []string
 	for _, a := range textAttrs {
@@ -66,7 +81,7 @@ func coqCfg(c *Case) string {
 			ffs = append(ffs, fmt.Sprintf("mk_ff %s %s %s", vh.CoqString(a+"_"+im), vh.CoqString(a), coqImpl[im]))
 		}
 	}
-	return "(mk_cfg " + vh.CoqList(ffs) + " [\"n0\"; \"n1\"; \"s0\"] " + vh.CoqBool(c.Flag) + ")"
+	return "(mk_cfg " + vh.CoqList(ffs) + " [\"n0\"; \"n1\"; \"s0\"; \"u0\"; \"f0\"] " + vh.CoqBool(c.Flag) + " c11_customs)"
 }
 
 func coqArgs(field string, a Args) string {
@@ -83,8 +98,8 @@ func coqArgs(field string, a Args) string {
 		sb = "(Some " + vh.CoqString(modelSortName(field, *a.SortBy)) + ")"
 	}
 	desc := a.SortOrder != nil && *a.SortOrder == "desc"
-	return fmt.Sprintf("(mk_args %s %s %s %s %s %s %s %s)", coqOptZ(a.First), coqOptZ(a.Last), coqOptS(a.After), coqOptS(a.Before),
-		coqOptS(a.FilterText), ff, sb, vh.CoqBool(desc))
+	return fmt.Sprintf("(mk_args %s %s %s %s %s %s %s %s %s)", coqOptZ(a.First), coqOptZ(a.Last), coqOptS(a.After), coqOptS(a.Before),
+		coqOptS(a.FilterText), ff, sb, vh.CoqBool(desc), coqOptS(a.FilterType))
 }
 
 func coqObs(r pageResult) string {
@@ -97,6 +112,8 @@ func coqObs(r pageResult) string {
 		return "ObsErr 2"
 	case "unknown-sort":
 		return "ObsErr 3"
+	case "no-total-func":
+		return "ObsErr 4"
 	}
 	return "ObsErr 9"
 }
@@ -118,21 +135,65 @@ func coqCase(c *Case, pages []pageResult) string {
 	for i, p := range pages {
 		obs[i] = coqObs(p)
 	}
-	return fmt.Sprintf("mk_case %s\n  %s\n  %s %s\n  %s", cfg, vh.CoqList(nodes), coqArgs(c.Field, c.Args), kind, vh.CoqList(obs))
+	ext := "XNone"
+	if c.Field == "extI" || c.Field == "dualI" {
+		x := c.Ext
+		if x == nil {
+			x = &ExtInfo{}
+		}
+		pages := make([]string, len(x.Pages))
+		for i, p := range x.Pages {
+			pages[i] = vh.CoqString(p)
+		}
+		info := fmt.Sprintf("(mk_ext %s %s %s %s %s %s)", coqOptZ(x.Total), vh.CoqBool(x.HasNext), vh.CoqBool(x.HasPrev),
+			vh.CoqList(pages), vh.CoqBool(x.ApplyTextFilter), vh.CoqBool(x.SetPageInfo))
+		if c.Field == "extI" {
+			ext = "(XManual " + info + ")"
+		} else {
+			ext = "(XDual " + vh.CoqBool(c.Fallback) + " " + info + ")"
+		}
+	}
+	return fmt.Sprintf("mk_case %s\n  %s\n  %s %s %s\n  %s", cfg, vh.CoqList(nodes), coqArgs(c.Field, c.Args), ext, kind, vh.CoqList(obs))
 }
 
-func isASCII(s string) bool {
+// textInModel: valid UTF-8 with all code points below U+0100 - the texts on which the model's [lower]
+// is strings.ToLower (the model's decidable predicate [text_in_model]).
+func textInModel(s string) bool {
 	for i := 0; i < len(s); i++ {
-		if s[i] >= 0x80 {
+		switch b := s[i]; {
+		case b < 0x80:
+		case (b == 0xC2 || b == 0xC3) && i+1 < len(s) && s[i+1] >= 0x80 && s[i+1] <= 0xBF:
+			i++
+		default:
 			return false
 		}
 	}
 	return true
 }
 
-// wellFormed: the hypotheses of the theorems, evaluated on every case (unique keys, known field).
+// outsideModel names the reason why a case is judged by the oracle only (not compared with the model).
+func outsideModel(c *Case) string {
+	for _, it := range c.Items {
+		for _, t := range it.T {
+			if !textInModel(t) {
+				return "text attribute with code points >= U+0100"
+			}
+		}
+		if !textInModel(it.S) {
+			return "sort string with code points >= U+0100"
+		}
+	}
+	if c.Args.FilterText != nil && !textInModel(*c.Args.FilterText) {
+		return "filter text with code points >= U+0100"
+	}
+	return ""
+}
+
+var knownFields = map[string]bool{"itemsI": true, "itemsS": true, "itemsP": true, "bareI": true, "extI": true, "dualI": true}
+
+// wellFormed: the hypotheses of the theorems, evaluated on every case (unique keys, known field, no NaN).
 func wellFormed(c *Case) string {
-	if c.Field != "itemsI" && c.Field != "itemsS" && c.Field != "itemsP" && c.Field != "bareI" {
+	if !knownFields[c.Field] {
 		return "unknown field"
 	}
 	if c.Kind != "page" && c.Kind != "walkf" && c.Kind != "walkb" {
@@ -140,6 +201,12 @@ func wellFormed(c *Case) string {
 	}
 	if c.Kind != "page" && c.K < 1 {
 		return "walk with page size < 1"
+	}
+	if c.Kind != "page" && externallyManaged(c) {
+		return "walk over an externally managed connection"
+	}
+	if (c.Field == "extI" || c.Field == "dualI") && c.Ext == nil {
+		return "externally managed field without resolver info"
 	}
 	seen := map[string]bool{}
 	for _, it := range c.Items {
@@ -152,17 +219,9 @@ func wellFormed(c *Case) string {
 				return "int key not canonical: " + it.Key
 			}
 		}
-		for _, t := range it.T {
-			if !isASCII(t) {
-				return "non-ASCII text attribute"
-			}
+		if math.IsNaN(it.F) || math.IsInf(it.F, 0) {
+			return "NaN or infinite float sort value"
 		}
-		if !isASCII(it.S) {
-			return "non-ASCII sort attribute"
-		}
-	}
-	if c.Args.FilterText != nil && !isASCII(*c.Args.FilterText) {
-		return "non-ASCII filter text"
 	}
 	return ""
 }
@@ -170,7 +229,7 @@ func wellFormed(c *Case) string {
 func main() {
 	o := vh.ParseFlags()
 	run := vh.NewRun("C11", o)
-	run.Rule = "50% single page queries (first/last/after/before incl. unknown cursors, both cursors, first+last, negative sizes; filter text/fields; sort field/order), 25% forward walks, 25% backward walks (page size 1-7) over lists of 0-40 elements with unique keys; filter/sort field implementation (plain, expensive, batch, batch-with-fallback) drawn per field; non-trivial = the list has >= 2 elements and the case returns at least one non-empty page without error; distinct by JSON text of the case"
+	run.Rule = "fields: thunder-managed (int64 key, string key, pointer nodes, no filter/sort fields), externally managed (PaginationInfo/PostProcessOptions), ManualPaginationWithFallback; sort values int64/uint64/float64/string; default and custom (filterType) text filters; texts ASCII + Latin-1 (code points >= U+0100: oracle only, counted as excluded-from-model). 50% single page queries (first/last/after/before incl. unknown cursors, both cursors, first+last, negative sizes; filter text/fields; sort field/order), 25% forward walks, 25% backward walks (page size 1-7) over lists of 0-40 elements with unique keys; filter/sort field implementation (plain, expensive, batch, batch-with-fallback) drawn per field; non-trivial = the list has >= 2 elements and the case returns at least one non-empty page without error; distinct by JSON text of the case"
 	// consecutive seeds of vh.NewRng give the same stream shifted by one draw; root the generator at a
 	// fully mixed value so that different seeds give unrelated case sets
 	r := vh.NewRng(o.Seed).Fork()
@@ -217,7 +276,7 @@ func main() {
 		}
 	}
 
-	const shard = 60
+	const shard = 76 // 600 cases = 8 files, one per worker of the model evaluator
 	shrunk := 0
 	var terms []string
 	start := 0
@@ -257,6 +316,18 @@ func main() {
 		}
 		if c.Args.SortBy != nil {
 			run.Hist("sort:yes")
+			if at, ok := attrOf(c.Field, *c.Args.SortBy, sortAttrs); ok {
+				run.Hist("sort-attr:" + at)
+			}
+		}
+		if c.Args.FilterType != nil {
+			run.Hist("filterType:" + *c.Args.FilterType)
+		}
+		if externallyManaged(c) {
+			run.Hist(fmt.Sprintf("ext:setPageInfo=%v,applyTextFilter=%v", c.Ext.SetPageInfo, c.Ext.ApplyTextFilter))
+			if len(c.Items) == 0 {
+				run.Hist("ext:empty-page-resolver-info-dropped")
+			}
 		}
 		if c.Kind == "page" && c.Args.After != nil && c.Args.Before != nil {
 			run.Hist("page:after+before")
@@ -294,6 +365,10 @@ func main() {
 		if searching {
 			continue
 		}
+		if why := outsideModel(c); why != "" {
+			run.Hist("excluded-from-model:" + why)
+			continue
+		}
 		terms = append(terms, fmt.Sprintf("(%d, %s)", idx, coqCase(c, pages)))
 		if len(terms) >= shard {
 			flush()
@@ -309,7 +384,7 @@ func evalCase(schema *graphql.Schema, c *Case) (pages []pageResult, fails []orac
 	finished := true
 	switch c.Kind {
 	case "page":
-		p := runPage(schema, c.Field, c.Items, c.Flag, c.Args)
+		p := runPage(schema, c, c.Args)
 		pages = append(pages, p)
 		fails = append(fails, checkPage(c, c.Args, p)...)
 	default:
@@ -323,7 +398,7 @@ func evalCase(schema *graphql.Schema, c *Case) (pages []pageResult, fails []orac
 			} else {
 				a.Last, a.Before = p64(c.K), cur
 			}
-			p := runPage(schema, c.Field, c.Items, c.Flag, a)
+			p := runPage(schema, c, a)
 			pages = append(pages, p)
 			fails = append(fails, checkPage(c, a, p)...)
 			if p.Err != "" {
